@@ -122,6 +122,7 @@ pub struct SchedReport {
 thread_local! { static TID: Cell<Option<usize>> = const { Cell::new(None) }; }
 static CURRENT: RwLock<Option<Arc<Sched>>> = RwLock::new(None);
 
+pub fn trace_on() -> bool { static T: std::sync::OnceLock<bool> = std::sync::OnceLock::new(); *T.get_or_init(|| std::env::var("DDOSIM_TRACE").is_ok()) }
 pub fn current_tid() -> Option<usize> { TID.with(|t| t.get()) }
 
 /// harness-side yield point: no-op outside a scheduled worker thread
@@ -259,6 +260,7 @@ impl Sched {
             g.stats.max_concurrent_processing = g.stats.max_concurrent_processing.max(processing);
         }
         let c = Self::choose(g, &en);
+        if trace_on() { eprintln!("[sched] step {} -> worker {} at {:?} (enabled {:?})", g.stats.steps, c, g.th[c], en); }
         if g.last != Some(c) {
             g.stats.switches += 1;
             if let Some(l) = g.last { if en.contains(&l) { g.stats.preemptions += 1; } }
